@@ -15,26 +15,44 @@ package pogreb
 // ranges over p so that the first byte read has the bound variable as its index)
 //@ spec func slotPos(q int64, n int64) bool = q >= 512 && q + 16 <= n && (q & 511) <= 480 && q & 15 == 0
 //@ spec func slotInSegAt(dl *datalog, m mem, q int64) bool = le16(m, int(q)+4) < 32767 && dl.segments[le16(m, int(q)+4)] != nil && le32(m, int(q)+12) >= 512 && le32(m, int(q)+8) <= 0x7fffffff && int64(le32(m, int(q)+12)) + 10 + int64(le16(m, int(q)+6)) + int64(le32(m, int(q)+8)) <= dl.segments[le16(m, int(q)+4)].file.size
-//@ spec func opaque slotsInLog(m mem, n int64, dl *datalog) bool = forall p int64 :: slotPos(p - 12, n) && le32(m, int(p)) != 0 ==> slotInSegAt(dl, m, p - 12)
+//@ spec func slotsInLog(m mem, n int64, dl *datalog) bool = forall p int64 :: slotPos(p - 12, n) && le32(m, int(p)) != 0 ==> slotInSegAt(dl, m, p - 12)
 //@ spec func idxInLog(db *DB) bool = slotsInLog(fData[fidOf[db.index.main.File]], db.index.main.size, db.datalog) && slotsInLog(fData[fidOf[db.index.overflow.File]], db.index.overflow.size, db.datalog)
 
 // fetchItems drains exactly one bucket chain: it returns nil only at the end of the chain, and what it queues are
 // fresh copies of the stored key and value of each non-empty slot it passed.
 //@ func (it *ItemIterator) fetchItems(nextBucketIdx uint32) (err error) [C11,C14]
 //@   requires inv: it.db != nil && dbFull(it.db) && idxInLog(it.db) && nextBucketIdx < it.db.index.numBuckets
-//@   ensures [C14] fresh: forall j int :: old(len(it.queue)) <= j && j < len(it.queue) ==> fresh(it.queue[j].key) && fresh(it.queue[j].value)
 //@   ensures err: err != nil ==> isIOErr(err) || err == io.EOF
 //@   at return: assert [C11] whole-chain: err == nil ==> bit.off == 0
+// what is queued are fresh copies of the stored bytes (never file-system memory, never a buffer that is reused)
+//@   at call append@1: assert [C14] queued-copies-are-fresh: fresh(key) && fresh(value)
+//@   at call append@1: assert [C11] queued-copies-are-the-stored-bytes: len(key) == int(sl.keySize) && len(value) == int(sl.valueSize) && sameBytes(contents(key), off(key), fData[fidOf[it.db.datalog.segments[sl.segmentID].file.File]], int(sl.offset)+6, len(key)) && sameBytes(contents(value), off(value), fData[fidOf[it.db.datalog.segments[sl.segmentID].file.File]], int(sl.offset)+6+int(sl.keySize), len(value))
 //@   at call readKeyValue@1: cases which-file: b.file == it.db.index.main || b.file == it.db.index.overflow
 //@   at call readKeyValue@1: hint slot-on-disk: slotEncoded(fData[fidOf[b.file.File]], int(b.offset)+16*i, sl) && bucketAt(b.offset, b.file.size) && sl.offset != 0
 //@   at call readKeyValue@1: hint slot-position: slotPos(b.offset + 16*int64(i), b.file.size)
+//@   at call readKeyValue@1: hint slot-in-log: slotInSegAt(it.db.datalog, fData[fidOf[b.file.File]], b.offset + 16*int64(i))
 //@   modifies it.queue, elems(item)
 //@   loop 1:
 //@     invariant it == old(it) && bit != nil && fresh(bit) && bit.overflow == it.db.index.overflow
 //@     invariant bit.off == 0 || (bit.f == it.db.index.main && bucketAt(bit.off, it.db.index.main.size)) || (bit.f == it.db.index.overflow && bucketAt(bit.off, it.db.index.overflow.size))
-//@     invariant forall j int :: old(len(it.queue)) <= j && j < len(it.queue) ==> fresh(it.queue[j].key) && fresh(it.queue[j].value)
 //@     modifies bit.off, bit.f, it.queue, elems(item)
 //@   loop 2:
 //@     invariant 0 <= i && i <= 31 && it == old(it)
-//@     invariant forall j int :: old(len(it.queue)) <= j && j < len(it.queue) ==> fresh(it.queue[j].key) && fresh(it.queue[j].value)
 //@     modifies it.queue, elems(item)
+
+// Next: buckets are visited in increasing order against the *live* bucket count; ErrIterationDone only when
+// the queue is empty and every bucket that exists now was visited.
+//@ func (it *ItemIterator) Next() (key []byte, value []byte, err error) [C11,C14]
+//@   requires inv: it.db != nil && dbFull(it.db) && idxInLog(it.db)
+//@   requires unlocked: lockSt[fieldaddr(it, mu)] == 0 && lockSt[fieldaddr(it.db, mu)] == 0
+//@   ensures [C11] done-only-at-end: err == ErrIterationDone ==> len(it.queue) == 0 && it.nextBucketIdx >= it.db.index.numBuckets
+//@   ensures [C11] forward: it.nextBucketIdx >= old(it.nextBucketIdx)
+//@   ensures [C11] queued-first: err == nil && old(len(it.queue)) > 0 ==> key == old(it.queue[0].key) && value == old(it.queue[0].value) && it.nextBucketIdx == old(it.nextBucketIdx)
+//@   ensures errs: err != nil ==> err == ErrIterationDone || isIOErr(err) || err == io.EOF
+//@   ensures unlocked: lockSt[fieldaddr(it, mu)] == 0 && lockSt[fieldaddr(it.db, mu)] == 0
+//@   modifies it.queue, it.nextBucketIdx, elems(item), lockSt
+//@   loop 1:
+//@     invariant it == old(it) && it.nextBucketIdx >= old(it.nextBucketIdx) && (old(len(it.queue)) > 0 ==> it.queue == old(it.queue) && contents(it.queue) == old(contents(it.queue)) && it.nextBucketIdx == old(it.nextBucketIdx))
+//@     invariant lockSt[fieldaddr(it, mu)] == 2 && lockSt[fieldaddr(it.db, mu)] == 1
+//@     decreases int(it.db.index.numBuckets) - int(it.nextBucketIdx)
+//@     modifies it.queue, it.nextBucketIdx, elems(item)
